@@ -223,3 +223,191 @@ theorem combine_eq_plainSum {F : Type} [CommSemiring F] (k : Pt → Pt → F) (w
     exact h x
 
 end Darsia.Kern
+
+namespace Darsia.Kern
+
+/-! ### `np.unique(supports, axis=0)`: strictly increasing rows, hence distinct supports -/
+
+theorem ltLex_irrefl : ∀ p : Pt, ltLex p p = false
+  | [] => rfl
+  | a :: as => by simp [ltLex, ltLex_irrefl as]
+
+theorem ltLex_trans : ∀ p q r : Pt, ltLex p q = true → ltLex q r = true → ltLex p r = true
+  | [], [], _, h, _ => by simp [ltLex] at h
+  | [], _ :: _, [], _, h => by simp [ltLex] at h
+  | [], _ :: _, _ :: _, _, _ => by simp [ltLex]
+  | _ :: _, [], _, h, _ => by simp [ltLex] at h
+  | _ :: _, _ :: _, [], _, h => by simp [ltLex] at h
+  | a :: as, b :: bs, c :: cs, h1, h2 => by
+    simp only [ltLex] at h1 h2 ⊢
+    by_cases hab : a < b
+    · by_cases hbc : b < c
+      · simp [lt_trans hab hbc]
+      · by_cases hcb : c < b
+        · simp [hbc, hcb] at h2
+        · have : b = c := le_antisymm (not_lt.mp hcb) (not_lt.mp hbc)
+          subst this; simp [hab]
+    · by_cases hba : b < a
+      · simp [hab, hba] at h1
+      · have hab' : a = b := le_antisymm (not_lt.mp hba) (not_lt.mp hab)
+        subst hab'
+        simp only [hab, if_false] at h1
+        by_cases hac : a < c
+        · simp [hac]
+        · by_cases hca : c < a
+          · simp [hac, hca] at h2
+          · simp only [hac, hca, if_false] at h2 ⊢
+            exact ltLex_trans as bs cs h1 h2
+
+theorem ltLex_total : ∀ p q : Pt, p ≠ q → ltLex p q = true ∨ ltLex q p = true
+  | [], [], h => absurd rfl h
+  | [], _ :: _, _ => Or.inl (by simp [ltLex])
+  | _ :: _, [], _ => Or.inr (by simp [ltLex])
+  | a :: as, b :: bs, h => by
+    simp only [ltLex]
+    by_cases hab : a < b
+    · left; simp [hab]
+    · by_cases hba : b < a
+      · right; simp [hba]
+      · have : a = b := le_antisymm (not_lt.mp hba) (not_lt.mp hab)
+        subst this
+        have hne : as ≠ bs := fun e => h (by rw [e])
+        simp only [hab, if_false]
+        exact ltLex_total as bs hne
+
+/-- rows strictly increasing in the lexicographic order -/
+def RowsSorted (l : List (Pt × Nat)) : Prop := l.Pairwise (fun a b => ltLex a.1 b.1 = true)
+
+theorem mem_insertRow (p : Pt) (i : Nat) (a : Pt × Nat) : ∀ l : List (Pt × Nat),
+    a ∈ insertRow p i l → a = (p, i) ∨ a ∈ l
+  | [], h => by simp [insertRow] at h; exact Or.inl h
+  | (q, j) :: rest, h => by
+    unfold insertRow at h
+    split at h
+    · exact Or.inr h
+    · split at h
+      · rcases List.mem_cons.mp h with rfl | h'
+        · exact Or.inl rfl
+        · exact Or.inr h'
+      · rcases List.mem_cons.mp h with rfl | h'
+        · exact Or.inr (by simp)
+        · rcases mem_insertRow p i a rest h' with h'' | h''
+          · exact Or.inl h''
+          · exact Or.inr (by simp [h''])
+
+theorem insertRow_sorted (p : Pt) (i : Nat) : ∀ l : List (Pt × Nat), RowsSorted l → RowsSorted (insertRow p i l)
+  | [], _ => by simp [insertRow, RowsSorted]
+  | (q, j) :: rest, h => by
+    have hq := List.pairwise_cons.mp h
+    unfold insertRow
+    split
+    · exact h
+    · rename_i hne
+      split
+      · rename_i hlt
+        refine List.pairwise_cons.mpr ⟨?_, h⟩
+        intro a ha
+        rcases List.mem_cons.mp ha with rfl | ha
+        · exact hlt
+        · exact ltLex_trans p q a.1 hlt (hq.1 a ha)
+      · rename_i hnlt
+        refine List.pairwise_cons.mpr ⟨?_, insertRow_sorted p i rest hq.2⟩
+        intro a ha
+        rcases mem_insertRow p i a rest ha with rfl | ha
+        · rcases ltLex_total p q hne with h1 | h1
+          · exact absurd h1 hnlt
+          · exact h1
+        · exact hq.1 a ha
+
+theorem uniqueSortAux_sorted : ∀ (l : List Pt) (i : Nat) (acc : List (Pt × Nat)), RowsSorted acc →
+    RowsSorted (uniqueSortAux l i acc)
+  | [], _, _, h => h
+  | p :: ps, i, acc, h => uniqueSortAux_sorted ps (i + 1) _ (insertRow_sorted p i acc h)
+
+/-- the supports kept by `setup_kernel_problem` are pairwise distinct (strictly increasing rows) -/
+theorem uniqueSort_nodup (l : List Pt) : ((uniqueSort l).map (·.1)).Nodup := by
+  have h : RowsSorted (uniqueSort l) := uniqueSortAux_sorted l 0 [] List.Pairwise.nil
+  have h2 : ((uniqueSort l).map (·.1)).Pairwise (fun a b => ltLex a b = true) := by
+    rw [List.pairwise_map]; exact h
+  exact h2.imp (fun {a b} hab e => by subst e; rw [ltLex_irrefl] at hab; cases hab)
+
+end Darsia.Kern
+
+namespace Darsia.Kern
+
+/-- the cached kernel matrix is always over pairwise distinct supports -/
+def DistinctOk (st : KState) : Prop := ∀ key, st.cache = some key → key.2.Nodup
+
+theorem setup_distinct {st st' : KState} {S : List Pt} {V : List Rat} (h : setup st S V = .ok st') : DistinctOk st' := by
+  unfold setup at h
+  split at h
+  · cases h
+  · injection h with h; subst h
+    intro key hk
+    simp only [Option.some.injEq] at hk
+    subst hk
+    exact uniqueSort_nodup S
+
+theorem computeWeights_distinct {st st' : KState} (hd : DistinctOk st) (h : computeWeights st = .ok st') : DistinctOk st' := by
+  unfold computeWeights at h
+  split at h
+  · split at h
+    · injection h with h; subst h; exact hd
+    · cases h
+  · cases h
+
+theorem updateInterpolation_distinct {st st' : KState} {S : List Pt} {V : List Rat} (hd : DistinctOk st)
+    (h : updateInterpolation st S V = .ok st') : DistinctOk st' := by
+  unfold updateInterpolation at h
+  split at h
+  · rename_i st1 h1
+    refine computeWeights_distinct ?_ h
+    unfold ensureCache at h1
+    split at h1
+    · injection h1 with h1; subst h1; exact hd
+    · exact setup_distinct h1
+  · cases h
+
+theorem refresh_distinct {st st' : KState} (hd : DistinctOk st) (h : refresh st = .ok st') : DistinctOk st' := by
+  unfold refresh at h
+  split at h
+  · exact updateInterpolation_distinct hd h
+  · injection h with h; subst h; exact hd
+
+theorem setKernel_distinct {st st' : KState} {k : Nat} (hd : DistinctOk st) (h : setKernel st k = .ok st') : DistinctOk st' := by
+  unfold setKernel at h
+  split at h
+  · exact refresh_distinct (by intro key hk; simp at hk) h
+  · injection h with h; subst h; exact hd
+
+theorem step_distinct {st st' : KState} {op : KOp} (hd : DistinctOk st) (h : step st op = .ok st') : DistinctOk st' := by
+  cases op with
+  | updateKernel k => exact setKernel_distinct hd h
+  | valuesParam ps => exact refresh_distinct (by intro key hk; exact hd key hk) h
+  | update k? s? v? append =>
+    simp only [step] at h
+    split at h
+    · rename_i st1 hk
+      have hd1 : DistinctOk st1 := by
+        cases k? with
+        | none => simp only [optKernel] at hk; injection hk with hk; subst hk; exact hd
+        | some k => exact setKernel_distinct hd hk
+      refine refresh_distinct ?_ h
+      intro key hkey
+      cases s? with
+      | none =>
+        cases v? <;> exact hd1 key (by simpa [assignValues, assignSupports] using hkey)
+      | some B =>
+        cases v? <;> simp [assignValues, assignSupports] at hkey
+    · cases h
+
+theorem run_distinct {st st' : KState} (ops : List KOp) (hd : DistinctOk st) (h : run st ops = .ok st') : DistinctOk st' := by
+  induction ops generalizing st with
+  | nil => simp only [run] at h; injection h with h; subst h; exact hd
+  | cons op ops ih =>
+    simp only [run] at h
+    cases hs : step st op with
+    | error e => simp [hs] at h
+    | ok st1 => simp only [hs] at h; exact ih (step_distinct hd hs) h
+
+end Darsia.Kern
